@@ -27,6 +27,10 @@ add("C11", "runtime monitoring: boundary monitors on inverse_circuit / clifford_
     "For every ordered generating set of every stabilizer state on <=2 qubits (thorough: <=3 qubits, 181806 presentations), random and Y/sign-heavy states up to 12 qubits and graphs up to 30 vertices, the returned circuit is replayed by the oracle forwards (must reach +Z_1..+Z_n) and backwards from |0..0> (must reproduce the state), and every derived Clifford tableau is checked for validity and for the state it represents.",
     TRUST, "DESIGN.md section 5, C11")
 
+add("C07", "runtime monitoring: sys.monitoring probes on every tableau primitive (invariant at a hook + transition check against an independent Pauli-algebra model) under exhaustive one-step and long random operation histories",
+    "Every call of every tableau primitive (nested calls included) is snapshotted at entry and checked at return: binary/symplectic/paired invariants and the exact stabilizer group the operation must produce (conjugation for gates, Aaronson-Gottesman post-condition for measurement, reset, insertion of |0>, removal / partial trace, tensor). Workload: all 11520 two-qubit tableaux x ~70 API calls (thorough; sampled in quick) and random histories up to n = 200 qubits, also through the Stabilizer / MixedStabilizer wrappers.",
+    TRUST + "measure_x / measure_y are judged on their outcome only.", "DESIGN.md section 5, C07")
+
 NOT_YET = {
 }
 
